@@ -70,12 +70,16 @@ def graph_case(draw, tier):
     edges = sorted(edges)
     order = draw(st.permutations(edges))
     flip = [draw(st.booleans()) for _ in order]
-    relabel = draw(st.sampled_from(["id", "id", "offset", "perm"]))
+    relabel = draw(st.sampled_from(["id", "id", "offset", "perm", "negative"]))
     labels = list(range(n))
     if relabel == "perm":
         labels = list(draw(st.permutations(labels)))
     elif relabel == "offset":
         labels = [2 * i + 3 for i in range(n)]
+    elif relabel == "negative":
+        # vertex ids are arbitrary integers: negative ones (-1 in particular) are legal labels
+        k = draw(st.integers(1, 3))
+        labels = [x - k for x in draw(st.permutations(labels))]
     m0 = draw(st.sampled_from([2, 2, 2, 3, 3, 4, 5, 6, 8]))
     r = draw(st.one_of(st.fixed_dictionaries({"mode": st.just("seed"), "seed": st.integers(0, 2 ** 31)}),
                        st.fixed_dictionaries({"mode": st.just("script"), "ints": st.lists(st.integers(0, 30), max_size=30),
